@@ -60,8 +60,11 @@ BitOp(op, a, b) ==
 BitNot(a) == NumOf(OfTwos(Flip(TwosOf(DecOf(a)))))
 
 \* ---------------------------------------------------------------- operators
+\* <<"oneof", v1, v2>> (round at a tie) is an admissible final value or array element; anything computed from it is unpinned
+IsOneOf(v) == v[1] = "oneof"
 PrefixOp(op, v) ==
-  CASE op = "!!" -> <<"v", Bool(Truthy(v))>>
+  CASE IsOneOf(v) -> <<"u">>
+    [] op = "!!" -> <<"v", Bool(Truthy(v))>>
     [] op = "!" -> IF v = Null \/ v[1] \in {"bool", "num", "nan", "inf"} THEN <<"v", Bool(~Truthy(v))>> ELSE <<"u">>
     [] op = "-" -> IF v[1] = "num" THEN <<"v", NumOf(DNeg(DecOf(v)))>> ELSE <<"u">>
     [] op = "+" -> IF v[1] = "num" THEN <<"v", v>> ELSE <<"u">>
@@ -151,7 +154,9 @@ Eval(t, st) ==
     [] t[1] = "Paren" -> Eval(t[2], st)
     [] t[1] = "Arr" ->
          LET l == EvalList(t[2], 1, <<>>, st) IN
-         IF l[1] = "ok" THEN EOk(Arr(l[2]), l[3]) ELSE l
+         IF l[1] # "ok" THEN l
+         ELSE IF \E k \in 1..Len(l[2]) : l[2][k][1] = "strnum" THEN Unspec       \* symbolic text: not a comparable element
+         ELSE EOk(Arr(l[2]), l[3])
     [] t[1] = "Pre" ->
          LET o == Eval(t[3], st) IN
          IF o[1] # "ok" THEN o ELSE Lift(PrefixOp(t[2], o[2]), o[3])
@@ -163,6 +168,7 @@ Eval(t, st) ==
     [] t[1] = "Cond" ->
          LET c == Eval(t[2], st) IN
          IF c[1] # "ok" THEN c
+         ELSE IF IsOneOf(c[2]) THEN Unspec
          ELSE IF Truthy(c[2]) THEN Eval(t[3], c[3]) ELSE Eval(t[4], c[3])
     [] t[1] = "Bin" /\ t[2] = "=" ->
          IF t[3][1] = "Id" /\ IsLocalName(t[3][2]) THEN
@@ -178,6 +184,7 @@ Eval(t, st) ==
     [] t[1] = "Bin" /\ t[2] \in {"&&", "||", "??"} ->
          LET a == Eval(t[3], st) IN
          IF a[1] # "ok" THEN a
+         ELSE IF IsOneOf(a[2]) THEN Unspec
          ELSE LET takeLeft == CASE t[2] = "&&" -> ~Truthy(a[2])
                                 [] t[2] = "||" -> Truthy(a[2])
                                 [] t[2] = "??" -> ~IsNullV(a[2])
@@ -197,6 +204,8 @@ Eval(t, st) ==
               IF as[1] # "ok" THEN as
               ELSE IF f[2][1] # "func" THEN
                      (IF as[3] = f[3] THEN EErr(as[3]) ELSE Unspec)   \* not a function: an error (C03)
+              ELSE IF \E k \in 1..Len(as[2]) : IsOneOf(as[2][k]) THEN Unspec
+              ELSE IF f[2][2] # "toFloat" /\ \E k \in 1..Len(as[2]) : as[2][k][1] = "strnum" THEN Unspec
               ELSE LET r == ApplyFunc(f[2][2], as[2], t[4], as[3].log) IN
                    \* r = <<"v", value, log'>> | <<"e", log'>> | <<"u">>
                    CASE r[1] = "v" -> EOk(r[2], [as[3] EXCEPT !.log = r[3]])
